@@ -11,6 +11,11 @@ CHECKS = {
    text="All interleavings of workers, reducer and caller of the real common.AsyncMapReduce for n<=3 (quick) / n<=5 (thorough) and every success/error pattern are enumerated; invariants (mapped once, reduced once, never overlapping, returns after all reductions, all errors returned, no goroutine left, no fatal) are checked on each execution. Unbounded in schedule space for these n; the right level because the property is a pure concurrency contract of a 50-line helper.",
    note="Trusted: vrewrite rewrite rules, vrt channel/WaitGroup semantics (self-tests), DRF assumption behind state caching (cross-checked by an uncached preemption-bounded run).",
    ref="DESIGN.md §6 C20"),
+ "C11": dict(engine="sched", cat="model_checking",
+   technique="stateless model checking of the implementation: exhaustive DFS (state-cached, unbounded) over all completion orders of the concurrent chunk requests of the rewritten MultiOpQueryer.Query, crossed with an exhaustive small scope of (N, m, fault)",
+   text="For every N<=7, m<=4 (quick; N<=9, m<=5 thorough), no fault and every single failing chunk (transport error, status 500, non-JSON body), all interleavings of the chunk workers, the reducer and the caller of the real MultiOpQueryer.Query are enumerated against an in-memory transport; per execution: exactly N results, result i answers request i, each request in exactly one call, no call larger than m, a failing call yields an error and no partial slice, no deadlock/fatal/leak.",
+   note="Trusted: vrewrite rules, vrt semantics, the in-memory RoundTripper as the only environment; scope bounded by N, m and one fault per scenario.",
+   ref="DESIGN.md §6 C11"),
 }
 
 NOT_YET = {}
